@@ -244,6 +244,13 @@ theorem C02_vertical_pairs (p q : P3) (ph : ℝ) :
   · simp [emitted, dirOf, Rsin, Rcos]
   · simp [emitted, dirOf, Rsin, Rcos]
 
+/-- the case `rho = 0` excluded from `C02_phi_rigid` / `C02_rigid_covariance`: a solution without horizontal components
+(vertical ray: launch angle 0 or π) is placed identically at every azimuth, so nothing depends on the (arbitrary)
+value of `phi` there -/
+theorem C02_vertical_placement (s : ScalarSol) (ph ph' : ℝ) (he : s.eh = 0) (hr : s.rh = 0) :
+    (place ph s).emitted = (place ph' s).emitted ∧ (place ph s).received = (place ph' s).received := by
+  simp [place, he, hr]
+
 /-! ## uniform ice (the repaired code: reflection points are offset by the source position) -/
 
 /-- a horizontal translation of both endpoints translates every point of every path … -/
